@@ -238,8 +238,17 @@ class SlotInterp:
                                     '`return true` with no slot certainly consumed (cleared and recycled) on this path', reported)
                     self.step(fn, e['n'], st, binding, reported)
                 elif e['k'] == 'autodtor':
-                    # local list dies: its slots are destroyed (slot destructor clears FULL ones) - allowed in any state
-                    pass
+                    # a local list dies: its slots are destroyed (the slot destructor clears FULL ones, so nothing leaks) - but a FULL
+                    # slot that dies with a local list on a normal path is an event that was neither dispatched, taken nor cleared by
+                    # the caller's request: it silently disappears (clearEvents, which clears explicitly, leaves only EMPTY slots)
+                    if e.get('t') is not None and self.is_slot_list_type(e['t']):
+                        L = 'L%d:%s' % (e['var'], e.get('name'))
+                        if L in st.lists or L in st.iters or any(x[1] == L for x in st.elems.values()):
+                            c = st.content(L)
+                            node = fn.blocks[b].get('term') or next((x.get('n') for x in blk['elems'] if x.get('n')), None) or fn.body
+                            self.ob('O-drop', fn, node, c[0] in (None, E),
+                                    'the local list %s is destroyed while it may still hold FULL slots (%s): those events disappear '
+                                    'without having been dispatched, taken or cleared' % (e.get('name'), self.show(c)), reported)
             if b == fn.exit or not fn.succs(b):
                 exit_state = join_states(exit_state, st) if exit_state is not None else st.copy()
                 continue
@@ -318,6 +327,27 @@ class SlotInterp:
                 return t_st, f_st
         if o['cls'] == 'CXXMemberCallExpr' and (fn.callee(c) or {}).get('name') == 'empty' and fn.call_obj(c):
             L = self.list_key(fn, fn.call_obj(c), binding)
+            if L is not None and L not in SHARED and (L in st.iters or any(e[1] == L for e in st.elems.values())):
+                # a cursor walk / tracked elements of L are still recorded (e.g. after a `break` out of the walk): empty() == true means
+                # that there is no element at all, whichever part of the record it belongs to; the non-empty branch keeps the record
+                whole = st.content(L)
+                must = any(e[1] == L and e[3] == 'must' and e[0] is not None for e in st.elems.values())
+                cnt = st.counts.get(L, (0, INF))
+                empty_st = None
+                if whole[1] == 0 and not must and cnt[0] == 0:
+                    empty_st = st.copy()
+                    empty_st.iters.pop(L, None)
+                    for k in [k for k, e in empty_st.elems.items() if e[1] == L]:
+                        del empty_st.elems[k]
+                        for v in [v for v, x in empty_st.vars.items() if x == k]:
+                            del empty_st.vars[v]
+                    empty_st.lists[L] = Z
+                    empty_st.counts[L] = (0, 0)
+                nonempty_st = st.copy() if (whole[2] > 0 or must) and cnt[1] > 0 else None
+                t_st, f_st = empty_st, nonempty_st
+                if neg:
+                    t_st, f_st = f_st, t_st
+                return t_st, f_st
             if L is not None and L not in SHARED and L not in st.iters:
                 cont = st.lists.get(L, Z)
                 tracked = [k for k, e in st.elems.items() if e[1] == L]
